@@ -1,6 +1,785 @@
-//! C20: not implemented yet.
-use crate::util::Args;
-pub fn main(_a: &Args) {
-    eprintln!("c20: not implemented");
-    std::process::exit(2);
+//! C20: Contour::to_kurbo, ContourPoint::transform and the AffineTransform <-> kurbo::Affine
+//! conversions on inputs that the Coq side (coq/Run/C20.v) derives from the same key with the
+//! same 63-bit integer arithmetic; results are exchanged as one 6-bit fingerprint per case.
+use crate::util::*;
+use norad::{AffineTransform, Contour, ContourPoint, Glyph, PointType};
+use std::fmt::Write as _;
+
+const MASK: u64 = (1u64 << 63) - 1;
+
+// ---------- 63-bit mixing: the same operations as Run/C20.v ----------
+fn mix(z: u64) -> u64 {
+    let z = (z ^ (z >> 30)).wrapping_mul(0x3F58476D1CE4E5B9) & MASK;
+    let z = (z ^ (z >> 27)).wrapping_mul(0x14D049BB133111EB) & MASK;
+    z ^ (z >> 31)
+}
+fn draw(key: u64, a: u64, b: u64) -> u64 {
+    let x = key
+        .wrapping_add(a.wrapping_mul(0x1E3779B97F4A7C15))
+        .wrapping_add(b.wrapping_mul(0x2545F4914F6CDD1D))
+        & MASK;
+    mix(mix(x).wrapping_add(0x632BE59BD9B4E019) & MASK)
+}
+fn hstep(h: u64, v: u64) -> u64 {
+    mix(h.wrapping_mul(0x2545F4914F6CDD1D).wrapping_add(v).wrapping_add(0x1E3779B97F4A7C15) & MASK)
+}
+
+// ---------- doubles ----------
+const FRAC: u64 = (1u64 << 52) - 1;
+fn of_fields(s: u64, e: u64, frac: u64) -> f64 {
+    f64::from_bits((s << 63) | (e << 52) | frac)
+}
+/// (sign, biased exponent, fraction); every NaN is reported as (0, 2047, 1)
+fn to_fields(f: f64) -> (u64, u64, u64) {
+    if f.is_nan() {
+        return (0, 2047, 1);
+    }
+    let b = f.to_bits();
+    (b >> 63, (b >> 52) & 0x7ff, b & FRAC)
+}
+fn canon_bits(f: f64) -> u64 {
+    let (s, e, fr) = to_fields(f);
+    (s << 63) | (e << 52) | fr
+}
+fn hash_float(h: u64, f: f64) -> u64 {
+    let (s, e, fr) = to_fields(f);
+    hstep(hstep(h, s * 2048 + e), fr)
+}
+const SPECIALS: [(u64, u64, u64); 16] = [
+    (0, 0, 0),
+    (1, 0, 0),
+    (0, 1023, 0),
+    (1, 1023, 0),
+    (0, 1022, 0),
+    (0, 2046, FRAC),
+    (1, 2046, FRAC),
+    (0, 1, 0),
+    (0, 0, 1),
+    (0, 0, FRAC),
+    (0, 1075, 0),
+    (0, 1076, 1),
+    (0, 1023, 1),
+    (0, 1022, FRAC),
+    (0, 1024, 0x8000000000000),
+    (1, 1021, 0),
+];
+fn gen_float(d1: u64, d2: u64) -> f64 {
+    let cat = d1 & 7;
+    let sgn = (d1 >> 3) & 1;
+    let u = d1 >> 4;
+    let frac = d2 & FRAC;
+    if cat <= 1 {
+        ((u % 2001) as i64 - 1000) as f64 + 0.0
+    } else if cat == 2 {
+        let k = (u % 8001) as i64;
+        if k >= 4000 {
+            (k - 4000) as f64 / 4.0
+        } else {
+            -((4000 - k) as f64 / 4.0)
+        }
+    } else if cat <= 4 {
+        of_fields(sgn, 993 + u % 61, frac)
+    } else if cat == 5 {
+        of_fields(sgn, 1 + u % 2046, frac)
+    } else if cat == 6 {
+        of_fields(sgn, u % 2047, frac)
+    } else {
+        let (s, e, fr) = SPECIALS[(u & 15) as usize];
+        of_fields(s, e, fr)
+    }
+}
+fn force_cat(mode: u64, d1: u64) -> u64 {
+    match mode {
+        0 => (d1 >> 3) << 3,
+        1 => ((d1 >> 3) << 3) + 3,
+        _ => d1,
+    }
+}
+
+// ---------- contours ----------
+const TYPES: [&str; 5] = ["move", "line", "offcurve", "curve", "qcurve"];
+fn ptype(t: u8) -> PointType {
+    match t {
+        0 => PointType::Move,
+        1 => PointType::Line,
+        2 => PointType::OffCurve,
+        3 => PointType::Curve,
+        _ => PointType::QCurve,
+    }
+}
+fn tnum(t: &PointType) -> u8 {
+    match t {
+        PointType::Move => 0,
+        PointType::Line => 1,
+        PointType::OffCurve => 2,
+        PointType::Curve => 3,
+        PointType::QCurve => 4,
+    }
+}
+/// (type 0..4, smooth, x, y)
+type Pt = (u8, bool, f64, f64);
+
+fn coords_exh(i: usize) -> (f64, f64) {
+    let k = (i + 1) as u64;
+    ((1u64 << k) as f64, (1000 + 3 * k * k) as f64)
+}
+fn coords_rand(key: u64, j: u64, i: usize) -> (f64, f64) {
+    let kc = mix(key.wrapping_add(2) & MASK);
+    let mode = draw(kc, j, 1048576) % 3;
+    let i = i as u64;
+    (
+        gen_float(force_cat(mode, draw(kc, j, 4 * i)), draw(kc, j, 4 * i + 1)),
+        gen_float(force_cat(mode, draw(kc, j, 4 * i + 2)), draw(kc, j, 4 * i + 3)),
+    )
+}
+
+fn build(points: &[Pt]) -> Contour {
+    Contour::new(
+        points.iter().map(|p| ContourPoint::new(p.2, p.3, ptype(p.0), p.1, None, None)).collect(),
+        None,
+    )
+}
+fn doc(points: &[Pt], variant: u64) -> String {
+    let mut s = String::from(
+        "<?xml version=\"1.0\" encoding=\"UTF-8\"?>\n<glyph name=\"a\" format=\"2\">\n<outline>\n<contour>\n",
+    );
+    for (i, p) in points.iter().enumerate() {
+        let _ = write!(s, "<point x=\"{:?}\" y=\"{:?}\"", p.2, p.3);
+        if p.0 != 2 || (variant >> (i % 60)) & 1 == 1 {
+            let _ = write!(s, " type=\"{}\"", TYPES[p.0 as usize]);
+        }
+        if p.1 {
+            s.push_str(" smooth=\"yes\"");
+        }
+        s.push_str("/>\n");
+    }
+    s.push_str("</contour>\n</outline>\n</glyph>\n");
+    s
+}
+
+#[derive(Clone, Debug, PartialEq)]
+enum Out {
+    Path(Vec<(u8, Vec<f64>)>),
+    TooMany,
+    BadPoint,
+    OtherErr,
+    Panic,
+}
+fn convert(c: &Contour) -> Out {
+    match catch(|| c.to_kurbo()) {
+        Err(_) => Out::Panic,
+        Ok(Err(e)) => {
+            let k = format!("{:?}", e);
+            if k.contains("TooManyOffCurves") {
+                Out::TooMany
+            } else if k.contains("BadPoint") {
+                Out::BadPoint
+            } else {
+                Out::OtherErr
+            }
+        }
+        Ok(Ok(path)) => Out::Path(
+            path.elements()
+                .iter()
+                .map(|el| match el {
+                    kurbo::PathEl::MoveTo(p) => (1u8, vec![p.x, p.y]),
+                    kurbo::PathEl::LineTo(p) => (2, vec![p.x, p.y]),
+                    kurbo::PathEl::QuadTo(a, p) => (3, vec![a.x, a.y, p.x, p.y]),
+                    kurbo::PathEl::CurveTo(a, b, p) => (4, vec![a.x, a.y, b.x, b.y, p.x, p.y]),
+                    kurbo::PathEl::ClosePath => (5, vec![]),
+                })
+                .collect(),
+        ),
+    }
+}
+fn hash_out(o: &Out) -> u64 {
+    match o {
+        Out::Path(els) => {
+            let mut h = 17u64;
+            for (tag, fs) in els {
+                h = hstep(h, *tag as u64);
+                for f in fs {
+                    h = hash_float(h, *f);
+                }
+            }
+            h
+        }
+        Out::TooMany => 2,
+        Out::BadPoint => 3,
+        Out::Panic => 4,
+        Out::OtherErr => 5,
+    }
+}
+fn same(a: f64, b: f64) -> bool {
+    canon_bits(a) == canon_bits(b)
+}
+
+/// The property's own predicate, evaluated directly on what the implementation returned for a
+/// contour the parser accepted (an independent restatement; the Coq specification decides).
+fn oracle(points: &[Pt], out: &Out) -> Option<String> {
+    let els = match out {
+        Out::Path(e) => e,
+        other => return Some(format!("conversion of an accepted contour did not succeed: {:?}", other)),
+    };
+    let n = points.len();
+    if n == 0 {
+        return if els.is_empty() { None } else { Some("empty contour gave a non-empty path".into()) };
+    }
+    if els.is_empty() || els[0].0 != 1 {
+        return Some("path does not begin with MoveTo".into());
+    }
+    if els[1..].iter().any(|e| e.0 == 1 || e.0 == 5) {
+        return Some("MoveTo/ClosePath inside the path".into());
+    }
+    let start = (els[0].1[0], els[0].1[1]);
+    let closed = points[0].0 != 0;
+    let all_off = points.iter().all(|p| p.0 == 2);
+    // start point
+    if !closed {
+        if !(same(start.0, points[0].2) && same(start.1, points[0].3)) {
+            return Some("open contour does not start at its move point".into());
+        }
+    } else if !all_off {
+        if !points.iter().any(|p| p.0 != 2 && same(p.2, start.0) && same(p.3, start.1)) {
+            return Some("closed contour does not start at one of its on-curve points".into());
+        }
+    }
+    // closure
+    if closed {
+        let last = els.last().unwrap();
+        let k = last.1.len();
+        if els.len() < 2 || !(same(last.1[k - 2], start.0) && same(last.1[k - 1], start.1)) {
+            return Some("closed contour does not return to its start point".into());
+        }
+    }
+    // number of segments: one per on-curve point, a qcurve after k > 0 off-curves counts k
+    let mut expected = 0usize;
+    if all_off {
+        expected = n;
+    } else {
+        for i in 0..n {
+            if points[i].0 == 2 || (!closed && i == 0) {
+                continue;
+            }
+            let mut k = 0;
+            let mut j = i;
+            loop {
+                if j == 0 {
+                    if !closed {
+                        break;
+                    }
+                    j = n;
+                }
+                j -= 1;
+                if points[j].0 == 2 && k < n {
+                    k += 1
+                } else {
+                    break;
+                }
+            }
+            expected += if points[i].0 == 4 && k > 0 { k } else { 1 };
+            // kind of the segment is checked by the Coq specification
+        }
+    }
+    if els.len() - 1 != expected {
+        return Some(format!("{} segments, the drawing rules give {}", els.len() - 1, expected));
+    }
+    // no point lost: the contour's points, in cyclic order, are a subsequence of the path's points
+    let mut pp: Vec<(f64, f64)> = vec![];
+    for (_, fs) in els {
+        for q in fs.chunks(2) {
+            pp.push((q[0], q[1]));
+        }
+    }
+    let mut ok = false;
+    for k in 0..n {
+        if !closed && k > 0 {
+            break;
+        }
+        let mut it = pp.iter();
+        if (0..n).all(|i| {
+            let p = &points[(k + i) % n];
+            it.any(|q| same(q.0, p.2) && same(q.1, p.3))
+        }) {
+            ok = true;
+            break;
+        }
+    }
+    if !ok {
+        return Some("a point of the contour is missing from the path (or out of order)".into());
+    }
+    None
+}
+
+struct CaseRes {
+    model: u64,
+    spec: u64,
+    accepted: bool,
+    violation: Option<String>,
+}
+fn run_contour(points: &[Pt], variant: u64) -> CaseRes {
+    let direct = convert(&build(points));
+    let model = hash_out(&direct);
+    let d = doc(points, variant);
+    let parsed = catch(|| Glyph::parse_raw(d.as_bytes()));
+    match parsed {
+        Err(_) => CaseRes { model, spec: 6, accepted: false, violation: Some("parse_raw panicked".into()) },
+        Ok(Err(_)) => CaseRes { model, spec: 1, accepted: false, violation: None },
+        Ok(Ok(g)) => {
+            let empty = Contour::default();
+            let c = if points.is_empty() && g.contours.is_empty() {
+                &empty
+            } else if g.contours.len() == 1 {
+                &g.contours[0]
+            } else {
+                return CaseRes { model, spec: 6, accepted: true, violation: Some("parsed glyph does not hold exactly one contour".into()) };
+            };
+            let unchanged = c.points.len() == points.len()
+                && c.points.iter().zip(points).all(|(a, b)| {
+                    tnum(&a.typ) == b.0 && a.smooth == b.1 && same(a.x, b.2) && same(a.y, b.3)
+                });
+            if !unchanged {
+                return CaseRes { model, spec: 6, accepted: true, violation: Some("the parsed contour differs from the document".into()) };
+            }
+            let out = convert(c);
+            let violation = oracle(points, &out);
+            CaseRes { model, spec: hash_out(&out), accepted: true, violation }
+        }
+    }
+}
+
+fn dump_out(o: &Out) -> String {
+    match o {
+        Out::Path(els) => {
+            let mut s = String::from("Ok [");
+            for (i, (tag, fs)) in els.iter().enumerate() {
+                if i > 0 {
+                    s.push_str(", ");
+                }
+                s.push_str(["", "MoveTo", "LineTo", "QuadTo", "CurveTo", "ClosePath"][*tag as usize]);
+                for q in fs.chunks(2) {
+                    let _ = write!(s, " ({:?}, {:?})", q[0], q[1]);
+                }
+            }
+            s.push(']');
+            s
+        }
+        other => format!("{:?}", other),
+    }
+}
+fn bits_out(o: &Out) -> String {
+    // same shape as Run/C20.v dump_result: (code, [(tag, [bits..])..])
+    match o {
+        Out::Path(els) => {
+            let items: Vec<String> = els
+                .iter()
+                .map(|(t, fs)| format!("[{},[{}]]", t, fs.iter().map(|f| canon_bits(*f).to_string()).collect::<Vec<_>>().join(",")))
+                .collect();
+            format!("[0,[{}]]", items.join(","))
+        }
+        Out::TooMany => "[2,[]]".into(),
+        Out::BadPoint => "[3,[]]".into(),
+        Out::Panic => "[4,[]]".into(),
+        Out::OtherErr => "[5,[]]".into(),
+    }
+}
+
+fn points_exh(types: &[u8], smooth_bits: u64) -> Vec<Pt> {
+    types
+        .iter()
+        .enumerate()
+        .map(|(i, t)| {
+            let (x, y) = coords_exh(i);
+            // smooth only on on-curve points (it must not influence legality or the path)
+            (*t, *t != 2 && (smooth_bits >> (i % 60)) & 1 == 1, x, y)
+        })
+        .collect()
+}
+fn points_rand(key: u64, j: u64, digits: &[u8]) -> Vec<Pt> {
+    digits
+        .iter()
+        .enumerate()
+        .map(|(i, d)| {
+            let (x, y) = coords_rand(key, j, i);
+            (d / 2, d % 2 == 1, x, y)
+        })
+        .collect()
+}
+
+/// type sequence of random contour j (digit coding of C11: type*2 + smooth); the same function
+/// as Run/C20.v gen_digits
+fn gen_digits(key: u64, j: u64) -> Vec<u8> {
+    let kg = mix(key.wrapping_add(3) & MASK);
+    let d0 = draw(kg, j, 0);
+    let len = if j % 40 == 0 { 60 + d0 % 141 } else { 1 + d0 % 24 };
+    let mut ds: Vec<u64> = Vec::with_capacity(len as usize);
+    if draw(kg, j, 1) % 12 == 0 {
+        for i in 0..len {
+            ds.push(draw(kg, j, 10 + i) % 10);
+        }
+    } else {
+        let open = draw(kg, j, 2) % 3 == 0;
+        let mut offs = 0u64;
+        for i in 0..len {
+            let d = draw(kg, j, 10 + i);
+            let r = d % 100;
+            let t = if i == 0 && open {
+                0
+            } else if offs == 0 {
+                if r < 25 { 1 } else if r < 60 { 2 } else if r < 80 { 3 } else { 4 }
+            } else if offs == 1 {
+                if r < 40 { 2 } else if r < 75 { 3 } else { 4 }
+            } else if r < 15 {
+                2
+            } else if r < 55 {
+                if offs == 2 { 3 } else { 4 }
+            } else {
+                4
+            };
+            let sm = if t == 2 { 0 } else if (d >> 20) % 3 == 0 { 1 } else { 0 };
+            ds.push(2 * t + sm);
+            offs = if t == 2 { offs + 1 } else { 0 };
+        }
+        let e = draw(kg, j, 3) % 24;
+        if e < 2 {
+            for d in ds.iter_mut() {
+                *d = 4;
+            }
+        } else if e < 5 {
+            let q = (draw(kg, j, 4) % len) as usize;
+            ds[q] = draw(kg, j, 5) % 10;
+        }
+    }
+    if !ds.is_empty() && ds[0] >> 1 == 0 {
+        while ds.len() > 1 && ds[ds.len() - 1] >> 1 == 2 {
+            ds.pop();
+        }
+    }
+    ds.iter().map(|d| *d as u8).collect()
+}
+
+// ---------- transforms ----------
+fn tr_case(key: u64, i: u64) -> (AffineTransform, (f64, f64)) {
+    let kt = mix(key.wrapping_add(1) & MASK);
+    let mode = draw(kt, i, 100) & 3;
+    let g = |j: u64| gen_float(force_cat(mode, draw(kt, i, 2 * j)), draw(kt, i, 2 * j + 1));
+    (
+        AffineTransform { x_scale: g(0), xy_scale: g(1), yx_scale: g(2), y_scale: g(3), x_offset: g(4), y_offset: g(5) },
+        (g(6), g(7)),
+    )
+}
+struct TrRes {
+    norad: (f64, f64),
+    kurbo: (f64, f64),
+    roundtrip_ok: bool,
+    back: AffineTransform,
+    formula: (f64, f64),
+}
+fn run_transform(t: AffineTransform, p: (f64, f64)) -> TrRes {
+    let mut cp = ContourPoint::new(p.0, p.1, PointType::Line, false, None, None);
+    cp.transform(t);
+    let ka: kurbo::Affine = t.into();
+    let back: AffineTransform = ka.into();
+    let roundtrip_ok = same(back.x_scale, t.x_scale)
+        && same(back.xy_scale, t.xy_scale)
+        && same(back.yx_scale, t.yx_scale)
+        && same(back.y_scale, t.y_scale)
+        && same(back.x_offset, t.x_offset)
+        && same(back.y_offset, t.y_offset);
+    let kp = ka * kurbo::Point::new(p.0, p.1);
+    let formula = (
+        t.x_scale * p.0 + t.yx_scale * p.1 + t.x_offset,
+        t.xy_scale * p.0 + t.y_scale * p.1 + t.y_offset,
+    );
+    TrRes { norad: (cp.x, cp.y), kurbo: (kp.x, kp.y), roundtrip_ok, back, formula }
+}
+fn hash_pt(h: u64, p: (f64, f64)) -> u64 {
+    hash_float(hash_float(h, p.0), p.1)
+}
+
+fn json_str(s: &str) -> String {
+    serde_json::to_string(s).unwrap()
+}
+
+const BS_TR: u64 = 100;
+const BS_EXH: u64 = 125;
+const BS_RAND: u64 = 50;
+
+fn exh_types(n: usize, idx: u64) -> Vec<u8> {
+    let mut types = vec![0u8; n];
+    let mut x = idx;
+    for k in (0..n).rev() {
+        types[k] = (x % 5) as u8;
+        x /= 5;
+    }
+    types
+}
+fn exh_case(key: u64, n: usize, idx: u64) -> (Vec<u8>, Vec<Pt>, CaseRes) {
+    let types = exh_types(n, idx);
+    let pts = points_exh(&types, draw(key, 7000 + n as u64, idx));
+    let r = run_contour(&pts, draw(key, 8000 + n as u64, idx));
+    (types, pts, r)
+}
+fn rand_case(key: u64, j: u64) -> (Vec<u8>, CaseRes) {
+    let digits = gen_digits(key, j);
+    let pts = points_rand(key, j, &digits);
+    let r = run_contour(&pts, draw(key, 9000, j));
+    (digits, r)
+}
+/// (fingerprint of ContourPoint::transform, fingerprint of the kurbo side + round trip)
+fn tr_hashes(r: &TrRes) -> (u64, u64) {
+    let b = r.back;
+    let mut hk = hash_pt(29, r.kurbo);
+    for f in [b.x_scale, b.xy_scale, b.yx_scale, b.y_scale, b.x_offset, b.y_offset] {
+        hk = hash_float(hk, f);
+    }
+    (hash_pt(29, r.norad), hk)
+}
+
+/// folds per-case fingerprints block-wise, like Run/C20.v block_sums
+struct Sums {
+    bsize: u64,
+    n: u64,
+    cur: u64,
+    out: String,
+}
+impl Sums {
+    fn new(bsize: u64) -> Sums {
+        Sums { bsize, n: 0, cur: 0, out: String::new() }
+    }
+    fn push(&mut self, h: u64) {
+        self.cur = hstep(self.cur, h);
+        self.n += 1;
+        if self.n == self.bsize {
+            self.flush();
+        }
+    }
+    fn flush(&mut self) {
+        if self.n > 0 {
+            let _ = writeln!(self.out, "{}", self.cur);
+            self.n = 0;
+            self.cur = 0;
+        }
+    }
+}
+
+pub fn main(a: &Args) {
+    if let Some(p) = &a.replay {
+        replay(p);
+        return;
+    }
+    let mut rng = Rng::new(a.seed);
+    let key = rng.next() & MASK;
+    let mut violations: Vec<String> = vec![];
+    let mut n_viol = 0u64;
+    let mut push_violation = |v: String, n_viol: &mut u64| {
+        *n_viol += 1;
+        if violations.len() < 50 {
+            violations.push(v);
+        }
+    };
+
+    // ----- exhaustive over type sequences -----
+    let maxlen: usize = if a.thorough() { 9 } else { 7 };
+    let mut exh_total = 0u64;
+    let mut exh_accepted = 0u64;
+    let mut exh_err = 0u64;
+    for n in 0..=maxlen {
+        let count = 5u64.pow(n as u32);
+        let mut model = Sums::new(BS_EXH);
+        let mut spec = Sums::new(BS_EXH);
+        for idx in 0..count {
+            let (types, _pts, r) = exh_case(key, n, idx);
+            model.push(r.model);
+            spec.push(r.spec);
+            exh_total += 1;
+            if r.accepted {
+                exh_accepted += 1;
+            }
+            if r.model == 2 || r.model == 3 {
+                exh_err += 1;
+            }
+            if let Some(v) = r.violation {
+                let digits: String = types.iter().map(|t| (b'0' + t) as char).collect();
+                push_violation(
+                    format!("{{\"kind\":\"contour\",\"coords\":\"exh\",\"digits5\":\"{}\",\"what\":{}}}", digits, json_str(&v)),
+                    &mut n_viol,
+                );
+            }
+        }
+        model.flush();
+        spec.flush();
+        write_file(&a.out.join(format!("exh_model_{}.txt", n)), &model.out);
+        write_file(&a.out.join(format!("exh_spec_{}.txt", n)), &spec.out);
+    }
+
+    // ----- random longer contours -----
+    let nrand: u64 = if a.thorough() { 200_000 } else { 20_000 };
+    let mut rmodel = Sums::new(BS_RAND);
+    let mut rspec = Sums::new(BS_RAND);
+    let mut rand_accepted = 0u64;
+    let mut rand_alloff = 0u64;
+    let mut lens = 0u64;
+    let mut samples = String::new();
+    for j in 0..nrand {
+        let (digits, r) = rand_case(key, j);
+        rmodel.push(r.model);
+        rspec.push(r.spec);
+        if r.accepted {
+            rand_accepted += 1;
+            if !digits.is_empty() && digits.iter().all(|d| d / 2 == 2) {
+                rand_alloff += 1;
+            }
+        }
+        lens += digits.len() as u64;
+        let ds: String = digits.iter().map(|d| (b'0' + d) as char).collect();
+        if j >= 1 && j <= 3 {
+            let _ = writeln!(samples, "{} {}", ds, r.accepted);
+        }
+        if let Some(v) = r.violation {
+            push_violation(
+                format!(
+                    "{{\"kind\":\"contour\",\"coords\":\"rand\",\"key\":{},\"index\":{},\"digits\":\"{}\",\"what\":{}}}",
+                    key, j, ds, json_str(&v)
+                ),
+                &mut n_viol,
+            );
+        }
+    }
+    rmodel.flush();
+    rspec.flush();
+    write_file(&a.out.join("rand_model.txt"), &rmodel.out);
+    write_file(&a.out.join("rand_spec.txt"), &rspec.out);
+    write_file(&a.out.join("rand_samples.txt"), &samples);
+
+    // ----- transforms -----
+    let ntr: u64 = if a.thorough() { 10_000_000 } else { 1_000_000 };
+    let mut tr = Sums::new(BS_TR);
+    let mut trk = Sums::new(BS_TR);
+    let mut tr_nonfinite = 0u64;
+    let mut tr_inexact = 0u64;
+    let kt = mix(key.wrapping_add(1) & MASK);
+    for i in 0..ntr {
+        let (t, p) = tr_case(key, i);
+        let r = run_transform(t, p);
+        let (h, hk) = tr_hashes(&r);
+        tr.push(h);
+        trk.push(hk);
+        if !r.norad.0.is_finite() || !r.norad.1.is_finite() {
+            tr_nonfinite += 1;
+        }
+        if draw(kt, i, 100) & 3 != 0 {
+            tr_inexact += 1;
+        }
+        let mut what = vec![];
+        if !(same(r.norad.0, r.formula.0) && same(r.norad.1, r.formula.1)) {
+            what.push("ContourPoint::transform differs from x' = xScale*x + yxScale*y + xOffset, y' = xyScale*x + yScale*y + yOffset");
+        }
+        if !(same(r.norad.0, r.kurbo.0) && same(r.norad.1, r.kurbo.1)) {
+            what.push("ContourPoint::transform differs from kurbo::Affine * Point of the converted transform");
+        }
+        if !r.roundtrip_ok {
+            what.push("AffineTransform -> kurbo::Affine -> AffineTransform is not the identity");
+        }
+        if !what.is_empty() {
+            push_violation(
+                format!("{{\"kind\":\"transform\",\"key\":{},\"index\":{},\"what\":{}}}", key, i, json_str(&what.join("; "))),
+                &mut n_viol,
+            );
+        }
+    }
+    tr.flush();
+    trk.flush();
+    write_file(&a.out.join("tr.txt"), &tr.out);
+    write_file(&a.out.join("tr_kurbo.txt"), &trk.out);
+
+    write_file(&a.out.join("violations.json"), &format!("[{}]", violations.join(",\n")));
+    let summary = format!(
+        "{{\"key\":{},\"maxlen\":{},\"block_exh\":{},\"block_rand\":{},\"block_tr\":{},\"exhaustive_sequences\":{},\"exhaustive_accepted\":{},\"exhaustive_conversion_errors\":{},\"random_contours\":{},\"random_accepted\":{},\"random_accepted_all_offcurve\":{},\"random_mean_len\":{:.1},\"transforms\":{},\"transforms_nonfinite_result\":{},\"transforms_not_small_integer\":{},\"oracle_violations\":{}}}",
+        key, maxlen, BS_EXH, BS_RAND, BS_TR, exh_total, exh_accepted, exh_err, nrand, rand_accepted, rand_alloff,
+        lens as f64 / nrand as f64, ntr, tr_nonfinite, tr_inexact, n_viol
+    );
+    write_file(&a.out.join("summary.json"), &summary);
+}
+
+/// replay file: one line,
+///   `contour exh <digits5>` | `contour rand <key> <index>` | `transform <key> <index>`   readable results
+///   `block exh <key> <n> <base> <count>` | `block rand <key> <base> <count>` | `block tr <key> <base> <count>`
+///       per-case fingerprints "model spec" (tr: "transform kurbo"), one case per line
+fn replay(p: &std::path::Path) {
+    let s = std::fs::read_to_string(p).expect("replay file");
+    let w: Vec<&str> = s.split_whitespace().collect();
+    let num = |i: usize| -> u64 { w[i].parse().unwrap() };
+    match (w.first().copied(), w.get(1).copied()) {
+        (Some("block"), Some("exh")) => {
+            for idx in num(4)..num(4) + num(5) {
+                let (_, _, r) = exh_case(num(2), num(3) as usize, idx);
+                println!("{} {}", r.model, r.spec);
+            }
+        }
+        (Some("block"), Some("rand")) => {
+            for j in num(3)..num(3) + num(4) {
+                let (_, r) = rand_case(num(2), j);
+                println!("{} {}", r.model, r.spec);
+            }
+        }
+        (Some("block"), Some("tr")) => {
+            for i in num(3)..num(3) + num(4) {
+                let (t, p) = tr_case(num(2), i);
+                let (h, hk) = tr_hashes(&run_transform(t, p));
+                println!("{} {}", h, hk);
+            }
+        }
+        (Some("contour"), Some(kind)) => {
+            let pts = if kind == "exh" {
+                let types: Vec<u8> = w.get(2).unwrap_or(&"").bytes().map(|b| b - b'0').collect();
+                points_exh(&types, 0)
+            } else {
+                let digits = gen_digits(num(2), num(3));
+                println!("digits: {}", digits.iter().map(|d| (b'0' + d) as char).collect::<String>());
+                points_rand(num(2), num(3), &digits)
+            };
+            let d = doc(&pts, 0);
+            let direct = convert(&build(&pts));
+            println!("points: {}", pts.iter().map(|p| format!("{}{}({:?},{:?})", TYPES[p.0 as usize], if p.1 { "+smooth" } else { "" }, p.2, p.3)).collect::<Vec<_>>().join(" "));
+            println!("to_kurbo(Contour::new): {}", dump_out(&direct));
+            println!("bits: {}", bits_out(&direct));
+            match catch(|| Glyph::parse_raw(d.as_bytes())) {
+                Err(_) => println!("parse_raw: panic"),
+                Ok(Err(e)) => println!("parse_raw: rejected ({:?})", e),
+                Ok(Ok(g)) => {
+                    println!("parse_raw: accepted");
+                    let empty = Contour::default();
+                    let c = g.contours.first().unwrap_or(&empty);
+                    let out = convert(c);
+                    println!("to_kurbo(parsed): {}", dump_out(&out));
+                    println!("parsed_bits: {}", bits_out(&out));
+                    println!("oracle: {}", oracle(&pts, &out).unwrap_or_else(|| "holds".into()));
+                }
+            }
+        }
+        (Some("transform"), _) => {
+            let (t, p) = tr_case(num(1), num(2));
+            let r = run_transform(t, p);
+            println!("transform: {:?}", t);
+            println!("point: ({:?}, {:?})", p.0, p.1);
+            println!("ContourPoint::transform: ({:?}, {:?})", r.norad.0, r.norad.1);
+            println!("kurbo Affine * Point:    ({:?}, {:?})", r.kurbo.0, r.kurbo.1);
+            println!("formula:                 ({:?}, {:?})", r.formula.0, r.formula.1);
+            println!("roundtrip identity: {} (back: {:?})", r.roundtrip_ok, r.back);
+            println!(
+                "bits: [[{}],[{},{}],[{},{}]]",
+                [t.x_scale, t.xy_scale, t.yx_scale, t.y_scale, t.x_offset, t.y_offset, p.0, p.1]
+                    .iter()
+                    .map(|f| canon_bits(*f).to_string())
+                    .collect::<Vec<_>>()
+                    .join(","),
+                canon_bits(r.norad.0),
+                canon_bits(r.norad.1),
+                canon_bits(r.kurbo.0),
+                canon_bits(r.kurbo.1)
+            );
+        }
+        _ => println!("unrecognised replay line: {}", s),
+    }
 }
